@@ -98,7 +98,7 @@ func c16Roundtrip(c *core.Ctx, k *core.Case) {
 		return
 	}
 	back := nasConvert.NewProtocolConfigurationOptions()
-	if err := back.UnMarshal(cloneB(got)); err != nil {
+	if err := thenScribble(back.UnMarshal, got); err != nil {
 		c.Fail(k, "pco-unmarshal-error", fmt.Sprintf("UnMarshal(Marshal(l)): %v (bytes %s)", err, hx(got)))
 		return
 	}
@@ -486,7 +486,7 @@ func init() {
 				}})
 			}
 		}
-		us = append(us, coldUnits(tier, "nasConvert", "pco", "misc", "shared-parse")...)
+		us = append(us, coldUnits(tier, "nasConvert", "pco", "misc", "shared-parse", "bad-input")...)
 		us = append(us, coldEntryUnits(tier, "nasConvert", "pco", "misc")...)
 		return us
 	}
